@@ -82,8 +82,9 @@ func specIsItemCode(fc int) bool {
 //@   ensures ok && byteSize == 2 ==> forall i int :: 0 <= i && i < n ==> r.values[i] == int16(specBE16(p.input[q+2*i], p.input[q+2*i+1]))
 //@   ensures ok && byteSize == 4 ==> forall i int :: 0 <= i && i < n ==> r.values[i] == int32(specBE32(p.input[q+4*i], p.input[q+4*i+1], p.input[q+4*i+2], p.input[q+4*i+3]))
 //@   ensures ok && byteSize == 8 ==> forall i int :: 0 <= i && i < n ==> r.values[i] == int64(specBE64(p.input[q+8*i], p.input[q+8*i+1], p.input[q+8*i+2], p.input[q+8*i+3], p.input[q+8*i+4], p.input[q+8*i+5], p.input[q+8*i+6], p.input[q+8*i+7]))
-//@   allocates 64*length + 640
-//@   allocates_on_panic 64*length + 640
+//@   allocates 64*length + 1152
+//@   allocates_on_panic 64*length + 1152
+//@   ensures ok ==> nvars(dataItem) == 0
 //@   loop 1
 //@     invariant allocated() - old(allocated()) <= 16*valueCounts + 16*i
 //@     invariant 0 <= i && i <= valueCounts && valueCounts == n && length % byteSize == 0 && len(values) == n && fresh(values) && p.pos == q
@@ -110,8 +111,9 @@ func specIsItemCode(fc int) bool {
 //@   ensures ok && byteSize == 2 ==> forall i int :: 0 <= i && i < n ==> r.values[i] == specBE16(p.input[q+2*i], p.input[q+2*i+1])
 //@   ensures ok && byteSize == 4 ==> forall i int :: 0 <= i && i < n ==> r.values[i] == specBE32(p.input[q+4*i], p.input[q+4*i+1], p.input[q+4*i+2], p.input[q+4*i+3])
 //@   ensures ok && byteSize == 8 ==> forall i int :: 0 <= i && i < n ==> r.values[i] == specBE64(p.input[q+8*i], p.input[q+8*i+1], p.input[q+8*i+2], p.input[q+8*i+3], p.input[q+8*i+4], p.input[q+8*i+5], p.input[q+8*i+6], p.input[q+8*i+7])
-//@   allocates 64*length + 640
-//@   allocates_on_panic 64*length + 640
+//@   allocates 64*length + 1152
+//@   allocates_on_panic 64*length + 1152
+//@   ensures ok ==> nvars(dataItem) == 0
 //@   loop 1
 //@     invariant allocated() - old(allocated()) <= 16*valueCounts + 16*i
 //@     invariant 0 <= i && i <= valueCounts && valueCounts == n && length % byteSize == 0 && len(values) == n && fresh(values) && p.pos == q
@@ -136,8 +138,9 @@ func specIsItemCode(fc int) bool {
 //@   ensures ok ==> typeis(dataItem, *FloatNode) && r.byteSize == byteSize && len(r.values) == n && len(r.variables) == 0
 //@   ensures ok && byteSize == 4 ==> forall i int :: 0 <= i && i < n ==> r.values[i] == f32frombits(specBE32(p.input[q+4*i], p.input[q+4*i+1], p.input[q+4*i+2], p.input[q+4*i+3]))
 //@   ensures ok && byteSize == 8 ==> forall i int :: 0 <= i && i < n ==> r.values[i] == f64frombits(specBE64(p.input[q+8*i], p.input[q+8*i+1], p.input[q+8*i+2], p.input[q+8*i+3], p.input[q+8*i+4], p.input[q+8*i+5], p.input[q+8*i+6], p.input[q+8*i+7]))
-//@   allocates 64*length + 640
-//@   allocates_on_panic 64*length + 640
+//@   allocates 64*length + 1152
+//@   allocates_on_panic 64*length + 1152
+//@   ensures ok ==> nvars(dataItem) == 0
 //@   loop 1
 //@     invariant allocated() - old(allocated()) <= 16*valueCounts + 16*i
 //@     invariant 0 <= i && i <= valueCounts && valueCounts == n && length % byteSize == 0 && len(values) == n && fresh(values) && p.pos == q
@@ -184,14 +187,17 @@ func specIsItemCode(fc int) bool {
 //@   ensures ok && p.msgLength != 10 && fc == 26 ==> forall i int :: 0 <= i && 2*i < dl ==> cast(dataItem, *IntNode).values[i] == int16(specBE16(p.input[body+2*i], p.input[body+2*i+1]))
 //@   ensures ok && p.msgLength != 10 && fc == 41 ==> forall i int :: 0 <= i && i < dl ==> cast(dataItem, *UintNode).values[i] == p.input[body+i]
 //@   ensures ok && p.msgLength != 10 && fc == 42 ==> forall i int :: 0 <= i && 2*i < dl ==> cast(dataItem, *UintNode).values[i] == specBE16(p.input[body+2*i], p.input[body+2*i+1])
-//@   allocates ite(p.msgLength == 10, 64, ite(ok, 512*(p.pos - q) - 128, 512*(len(p.input) - q) + 1024))
-//@   allocates_on_panic 512*(len(p.input) - p.pos) + 1024
+//@   allocates ite(p.msgLength == 10, 64, ite(ok, 1024*(p.pos - q) - 128, 1024*(len(p.input) - q) + 2048))
+//@   allocates_on_panic 1024*(len(p.input) - p.pos) + 2048
+//@   ensures ok && p.msgLength != 10 ==> !typeis(dataItem, emptyItemNode) && nvars(dataItem) == 0
+//@   ensures ok ==> nvars(dataItem) == 0
 //@   loop 1
 //@     invariant 1 <= lengthBytesCount && lengthBytesCount <= 3 && lengthBytesCount == nlb && len(lengthBytes) == lengthBytesCount
 //@     invariant 0 <= rangeindex+1 && rangeindex+1 <= lengthBytesCount && p.pos == q + 1 && q < len(p.input) && lengthBytesCount <= len(p.input) - p.pos
 //@     invariant length == specDecPrefix(lengthBytesCount, rangeindex+1, p.input[q+1], p.input[q+2], p.input[q+3])
 //@   loop 2
-//@     invariant allocated() - old(allocated()) <= 512*(p.pos - body) - 64*i
+//@     invariant forall k int :: 0 <= k && k < i ==> !typeis(values[k], emptyItemNode) && nvars(values[k]) == 0
+//@     invariant allocated() - old(allocated()) <= 1024*(p.pos - body) - 64*i
 //@     invariant 0 <= i && i <= length && len(values) == i && fresh(values) && body <= p.pos && p.pos <= len(p.input) && length == dl
 //@     invariant forall k int :: 0 <= k && k < i ==> typeis(values[k], ItemNode)
 //@   loop 3
@@ -209,8 +215,8 @@ func specIsItemCode(fc int) bool {
 //@   maypanic
 //@   modifies p.pos, p.msg
 //@   requires p.pos == 4 && len(p.input) >= 14 && p.msgLength == len(p.input) - 4
-//@   allocates 512*len(p.input) + 2048
-//@   allocates_on_panic 512*len(p.input) + 2048
+//@   allocates 1024*len(p.input) + 4096
+//@   allocates_on_panic 1024*len(p.input) + 4096
 //@   let st = p.input[9]
 //@   let m = cast(p.msg, *DataMessage)
 //@   let c = cast(p.msg, *ControlMessage)
@@ -227,7 +233,7 @@ func specIsItemCode(fc int) bool {
 //@   property C03 C07 C01 C14 C11
 //@   recover
 //@   bounded_view input
-//@   allocates 512*len(input) + 4096
+//@   allocates 1024*len(input) + 8192
 //@   let st = input[9]
 //@   let m = cast(msg, *DataMessage)
 //@   let c = cast(msg, *ControlMessage)
